@@ -283,6 +283,14 @@ Theorem C15_get_all_methods_chain : forall P f s l,
 Proof. exact get_all_methods_chain. Qed.
 Print Assumptions C15_get_all_methods_chain.
 
+(* an extends chain without repetition (the checker rejects cyclic chains) always fits the fuel of
+   the model: no premise about it *)
+Theorem C15_get_all_methods_acyclic : forall P f s l,
+  prog_ok P = true -> base_chain P f s l -> NoDup (tl l) ->
+  get_all_methods (registry_of P) (service_desc (f_filename f) s) = chain_methods l.
+Proof. exact get_all_methods_acyclic. Qed.
+Print Assumptions C15_get_all_methods_acyclic.
+
 Theorem C15_method_from_all_chain : forall P f s l n,
   prog_ok P = true -> base_chain P f s l -> (List.length l <= S (chain_fuel (registry_of P)))%nat ->
   get_method_from_all (registry_of P) (service_desc (f_filename f) s) n = first_named md_name (chain_methods l) n.
